@@ -187,7 +187,10 @@ def check_rates(tier, seed):
                     continue
                 try:
                     have = eval_c(text, cond)
-                except (ZeroDivisionError, OverflowError):
+                except ZeroDivisionError:
+                    V(fmt, r.code, f"value: rate text {text!r} divides by zero, published law for '{r.code}' = {want!r} at T={cond['Tgas']}", line)
+                    break
+                except OverflowError:
                     continue
                 except Exception as e:
                     V(fmt, r.code, f"not-valid-C: {type(e).__name__}: {e} in {text!r}", line)
